@@ -99,6 +99,7 @@ type Runner struct {
 	lsUp    bool
 	seenL0  map[string]bool
 	prevRem map[string]bool
+	gated   any // in-flight step-by-step checkpoint (gate.go)
 	nextRow int
 	ctx     context.Context
 	Hooks   func(r *Runner, ls *litestream.DB) // optional: lets a driver configure a freshly created litestream.DB
@@ -249,7 +250,7 @@ func argStr(st []any, k int, def string) string {
 func (r *Runner) Step(st []any, noLS bool) (res string, ack bool) {
 	op := argStr(st, 0, "")
 	ctx := r.ctx
-	isLS := strings.HasPrefix(op, "Ls") || op == "MetaLost" || op == "Snapshot" || op == "Compact" ||
+	isLS := strings.HasPrefix(op, "Ls") || strings.HasPrefix(op, "Ck") || op == "MetaLost" || op == "Snapshot" || op == "Compact" ||
 		strings.HasPrefix(op, "Ret") || op == "ReplaceDb" || op == "SaveCopy"
 	if noLS && isLS && op != "ReplaceDb" && op != "SaveCopy" {
 		return "skip", false
@@ -257,6 +258,9 @@ func (r *Runner) Step(st []any, noLS bool) (res string, ack bool) {
 	needApp := strings.HasPrefix(op, "App") || strings.HasPrefix(op, "Reader")
 	if needApp && op != "AppOpen" && r.conn == nil {
 		return "skip", false
+	}
+	if r.gated != nil && (strings.HasPrefix(op, "Ls") || op == "Snapshot" || op == "Compact") {
+		r.gateFinish() // the executor is held by the in-flight checkpoint: let it finish first
 	}
 	switch op {
 	// ---------------------------------------------------------------- application
@@ -478,10 +482,18 @@ func (r *Runner) Step(st []any, noLS bool) (res string, ack bool) {
 			return "skip", false
 		}
 		return errClass(r.ls.Checkpoint(ctx, argStr(st, 1, "PASSIVE"))), false
+	case "CkStart": // litestream checkpoint executed step by step (parked at the verif hooks)
+		if !r.lsUp || r.gated != nil {
+			return "skip", false
+		}
+		return r.gateStart(argStr(st, 1, "PASSIVE")), false
+	case "CkStep": // let the parked checkpoint run to its next hook (or to completion)
+		return r.gateStep(), false
 	case "LsClose":
 		if !r.lsUp {
 			return "skip", false
 		}
+		r.gateFinish()
 		inited := r.ls.SQLDB() != nil
 		err := r.ls.Close(ctx)
 		r.lsUp = false
@@ -722,6 +734,7 @@ func RunCase(c Case, baseDir string, hooks func(r *Runner, ls *litestream.DB)) (
 			ev.Op, ev.Res = "Panic", fmt.Sprintf("panic:%v", p)
 			evs = append(evs, ev)
 		}
+		r.gateFinish()
 		if r.lsUp {
 			r.ls.Close(context.Background())
 		}
